@@ -4,7 +4,7 @@ from collections import Counter
 
 from vf.gen import pep as gp
 from vf.ref import pep as rp
-from vf.ref.pep import M, Pep
+from vf.ref.pep import M, Pep, Rule
 
 DECIDING = ['peptacular.sequence.sequence_funcs.find_subsequence_indices', 'peptacular.sequence.sequence_funcs.coverage']
 EXHAUSTIVE = {t: 'every target string of length 0..9 over a two-letter alphabet x every query of length 1..4 '
@@ -218,6 +218,15 @@ def random_cases(ctx, st, pt):
     for _ in range(ctx.n(4000, 200000)):
         T = gp.gen_pep(rng, res_only)
         n = len(T.seq)
+        T_written = T
+        if rng.random() < 0.3:
+            # the target carries global rules on residues (two rules may name the same residue): its modified residues
+            # are the rule-expanded ones, the query spells them out
+            T_written = T.copy()
+            for _r in range(rng.randint(1, 2)):
+                mods = [M(rng.choice(['Oxidation', 'Carbamidomethyl', 'Phospho', '+1.5', '10']), kind='rule')]
+                T_written.static.append(Rule(mods, rng.sample(list('AKGSP'), rng.randint(1, 2))))
+            T = rp.explicit_static(T_written)
         idx = [rng.randrange(n) for _ in range(rng.randint(1, min(n + 1, 5)))]
         if rng.random() < 0.5:
             idx = sorted(set(idx))
@@ -232,7 +241,7 @@ def random_cases(ctx, st, pt):
                 del Q.res[k]
             else:
                 Q.res[k] = [M('Methyl', kind='unimod-name', named=True)]
-        t_text, q_text = rp.write(T), rp.write(Q)
+        t_text, q_text = rp.write(T_written), rp.write(Q)
         ctx.begin({'target': t_text, 'query': q_text, 'workload': 'unordered'})
 
         def bag(p):
@@ -244,7 +253,7 @@ def random_cases(ctx, st, pt):
         if not got or got[0] != 'ok' or bool(got[1]) != exp:
             ctx.violation('unordered-containment-differs', {'target': t_text, 'query': q_text, 'expected': exp,
                                                             'observed': got})
-        ctx.sig(('unordered', exp, bool(Q.res), len(set(idx)) != len(idx)), True)
+        ctx.sig(('unordered', exp, bool(Q.res), len(set(idx)) != len(idx), len(T_written.static)), True)
 
 
 def run(ctx):
